@@ -176,6 +176,8 @@ def proj(model, v, sweeten=True, _depth=0):
         return out
     if cname in model.cspecs and model.kind(cname) in (
             'str', 'userstring', 'stringlike'):
+        if sweeten:
+            return sweeten_plain(model, cname, str(v))
         return str(v)
     if isinstance(v, pathlib.PurePath):
         return str(v)
